@@ -138,4 +138,66 @@ def fitQuantile [Zero α] [One α] [Add α] [Sub α] [Div α] [LT α] [LE α] [D
     some (bisectLoop ratio q tol maxIter.toNat { lo := 0, hi := 1, e := e0, nIter := 0 })
   else none
 
+/-! ### `fit_quantile` with the re-fit made explicit (the keywords it forwards to `fit` are an argument)
+
+`bisectLoop` above abstracts the whole "set the expectile, re-fit, predict, count" into an oracle `ratio k e`.  That
+hides *what* is fitted.  Here the fit itself is a parameter **of the forwarded keywords**: `fit kw e` is the model that
+`self.set_params(expectile=e); self.fit(X, y, **kw)` produces (`kw` = the keyword arguments `fit_quantile` passes on to
+`fit`: the sample `weights`; `fit` starts cold, its outcome does not depend on the previous coefficients) and
+`ratio m = (m.predict(X) > y).mean()`.  Every fit of the search — the first fit "if necessary" and every re-fit after a
+bisection step — is `fit kw ·` with the *same* `kw` that was passed to `fit_quantile`. -/
+
+/-- state of the search: the bracket / expectile / counter and the current fitted model -/
+structure SState (α μ : Type) where
+  b : BState α
+  model : μ
+
+/-- the `while n_iter < max_iter` loop, re-fitting with the forwarded keywords `kw` after every bisection step -/
+def searchLoop {κ μ : Type} [Zero α] [One α] [Add α] [Sub α] [Div α] [LT α] [LE α] [DecidableLT α] [DecidableLE α]
+    (fit : κ → α → μ) (ratio : μ → α) (kw : κ) (q tol : α) : Nat → SState α μ → SState α μ × Bool
+  | 0, s => (s, false)
+  | fuel+1, s =>
+      match bisectStep q tol (ratio s.model) s.b with
+      | none => (s, true)
+      | some b' => searchLoop fit ratio kw q tol fuel { b := b', model := fit kw b'.e }
+
+/-- `(expectile, model)` of every re-fit, in order -/
+def searchTrace {κ μ : Type} [Zero α] [One α] [Add α] [Sub α] [Div α] [LT α] [LE α] [DecidableLT α] [DecidableLE α]
+    (fit : κ → α → μ) (ratio : μ → α) (kw : κ) (q tol : α) : Nat → SState α μ → List (α × μ)
+  | 0, _ => []
+  | fuel+1, s =>
+      match bisectStep q tol (ratio s.model) s.b with
+      | none => []
+      | some b' => (b'.e, fit kw b'.e) :: searchTrace fit ratio kw q tol fuel { b := b', model := fit kw b'.e }
+
+/-- the model the loop starts from: an already fitted model is kept (`pre = some m`), otherwise "perform a first fit
+if necessary": `self.fit(X, y, weights=weights)` at the expectile the object was constructed with -/
+def searchStart {κ μ : Type} (fit : κ → α → μ) (kw : κ) (e0 : α) (pre : Option μ) : μ :=
+  match pre with
+  | some m => m
+  | none => fit kw e0
+
+/-- `ExpectileGAM.fit_quantile(X, y, quantile, max_iter, tol, **kw)`: `none` = `ValueError` -/
+def fitQuantileW {κ μ : Type} [Zero α] [One α] [Add α] [Sub α] [Div α] [LT α] [LE α] [DecidableLT α] [DecidableLE α]
+    (fit : κ → α → μ) (ratio : μ → α) (kw : κ) (q tol : α) (maxIter : Int) (e0 : α) (pre : Option μ) :
+    Option (SState α μ × Bool) :=
+  if argsOk q tol maxIter then
+    some (searchLoop fit ratio kw q tol maxIter.toNat
+      { b := { lo := 0, hi := 1, e := e0, nIter := 0 }, model := searchStart fit kw e0 pre })
+  else none
+
+/-! #### the intercept-only ExpectileGAM as a concrete `fit` / `ratio` (what the driver executes) -/
+
+/-- `fit kw e` of the intercept-only model: keyword = the sample weights `w`; the model is the coefficient together
+with "the PIRLS iteration reproduced itself" -/
+def interceptModelFit [Zero α] [One α] [Add α] [Sub α] [Mul α] [Div α] [LT α] [DecidableLT α] [DecidableEq α]
+    (s00 : α) (n : Nat) (y : Nat → α) (fuel : Nat) (cold : α) (w : Nat → α) (e : α) : α × Bool :=
+  interceptFit e s00 n w y fuel cold
+
+/-- `_get_quantile_ratio` of the intercept-only model: `(predict(X) > y).mean()` — the fraction of targets strictly
+below the coefficient, every row counting once whatever its weight -/
+def interceptRatio [Zero α] [One α] [Add α] [Div α] [LT α] [DecidableLT α]
+    (n : Nat) (y : Nat → α) (m : α × Bool) : α :=
+  sumTo n (fun i => if y i < m.1 then 1 else 0) / sumTo n (fun _ => 1)
+
 end PyGam.Expectile
